@@ -8,10 +8,17 @@ from .solve import to_smt2, solve_all
 def main():
     modname = sys.argv[1]
     filt = sys.argv[2] if len(sys.argv) > 2 else ""
-    importlib.import_module(modname)
+    import glob, os
+    for path in sorted(glob.glob(os.path.join(os.path.dirname(os.path.dirname(os.path.abspath(__file__))), "contracts", "*.py"))):
+        nm = os.path.basename(path)[:-3]
+        if not nm.startswith("_"):
+            importlib.import_module("contracts." + nm)
+    modfile = sys.modules[modname].__name__
     w = World(C.REGISTRY, C.LEMMAS)
     for con in C.REGISTRY:
         if filt and filt not in con.qualname:
+            continue
+        if getattr(con, "module", None) != modname:
             continue
         t0 = time.time()
         fr = run_contract(w, con)
@@ -24,6 +31,8 @@ def main():
         print("   discharged %d/%d in %.2fs" % (sum(1 for r in res if r[0]=="unsat"), len(res), time.time()-t0))
     for lem in C.LEMMAS:
         if filt and filt not in lem.name:
+            continue
+        if getattr(lem, "module", None) != modname:
             continue
         fr = run_lemma(w, lem)
         print("== lemma %s status=%s paths=%d obligations=%d %s" % (lem.name, fr.status, fr.paths, len(fr.obligations), fr.reason))
